@@ -85,6 +85,7 @@ func (timeoutErr) Is(t error) bool { return t == os.ErrDeadlineExceeded }
 type Segment struct {
 	Data   []byte
 	Thread int
+	Step   int
 }
 
 // FakeConn is one endpoint of an in-memory stream (tcp) or a connected datagram socket (udp client).
@@ -167,7 +168,7 @@ func (c *FakeConn) Write(b []byte) (int, error) {
 		return 0, &net.OpError{Op: "write", Net: c.network, Err: errors.New("injected write failure")}
 	}
 	data := append([]byte{}, b...)
-	c.Writes = append(c.Writes, Segment{Data: data, Thread: vsched.CurID()})
+	c.Writes = append(c.Writes, Segment{Data: data, Thread: vsched.CurID(), Step: vsched.StepNo()})
 	if c.network == "udp" {
 		wd := w()
 		if u, ok := wd.udp[c.udpTarget]; ok && !u.closed {
